@@ -57,4 +57,9 @@ def load_all(pkgdir):
             spec = importlib.util.spec_from_file_location("contracts_" + f[:-3], os.path.join(pkgdir, f))
             mod = importlib.util.module_from_spec(spec)
             spec.loader.exec_module(mod)
+    # an ASSUMED contract is what call sites use; two of them for one target would silently shadow each other
+    for target, cs in REGISTRY.items():
+        plain = [c for c in cs if c.assumed and not c.opts.get("callsite")]
+        if len(plain) > 1:
+            raise RuntimeError("two assumed contracts for %s: %s" % (target, [c.name for c in plain]))
     return REGISTRY
